@@ -164,6 +164,11 @@ def _mk_exc(i):
         return MutualA("mutual")
     if i == 12:
         return BoolBoom("boolboom")
+    if i == 13:
+        _FLAKY[0] += 1
+        e = FlakyExtract("flaky %d" % _FLAKY[0])
+        e.first = _FLAKY[0] == 1
+        return e
     raise IndexError(i)
 
 
@@ -172,7 +177,7 @@ N_EXC = 10
 # exit attribute: 0 = normal return; else (catch_up, exception index)
 # catch_up: number of enclosing action boundaries the exception crosses after
 # leaving this action before it is caught (99 = to the top of the program).
-EXITS = [None] + [(0, e) for e in range(N_EXC)] + [(1, 0), (99, 0), (1, 3), (99, 6), (2, 2), (0, 10), (99, 10), (0, 11), (0, 12), (1, 12)]
+EXITS = [None] + [(0, e) for e in range(N_EXC)] + [(1, 0), (99, 0), (1, 3), (99, 6), (2, 2), (0, 10), (99, 10), (0, 11), (0, 12), (1, 12), (0, 13)]
 
 
 def exc_name(e):
@@ -192,6 +197,8 @@ def exc_extra(e):
         return {"code": e.code}
     if isinstance(e, OSError):
         return {"errno": e.errno}
+    if isinstance(e, FlakyExtract) and e.first:
+        return {"flaky": 1}
     return {}
 
 
@@ -303,6 +310,13 @@ class BadExtract(Exception):
     """Application exception whose registered extractor raises."""
 
 
+class FlakyExtract(Exception):
+    """Its extractor works for the first instance raised in a run and raises for every later one."""
+
+
+_FLAKY = [0]
+
+
 class MutualA(Exception):
     """Its extractor raises a MutualB, whose extractor raises a MutualA."""
 
@@ -380,6 +394,12 @@ SCHEMA = {
 }
 
 
+# "rf" = 1: the caller also passes fields named like eliot's own message keys.
+# eliot's values win on every path, so the reference is unchanged.
+RESERVED_MSG = {"timestamp": "user-ts", "task_level": [7, 7], "task_uuid": "user-uuid"}
+RESERVED_ACT = dict(RESERVED_MSG, action_status="user-status")
+
+
 def valid_default(prog):
     """Skip attribute combinations that merely duplicate another program."""
     for top in prog:
@@ -396,8 +416,10 @@ def valid_default(prog):
                 a.get("typed", 0) or a.get("at", 0)
             ):
                 return False  # remote continuation has a fixed type here
+            if a.get("rf", 0) and (a.get("typed", 0) or a.get("style", 0) in REMOTE_STYLES):
+                return False
             if a.get("style", 0) in REENTER_STYLES and any(
-                a.get(k, 0) for k in ("typed", "at", "sf", "ef", "xf")
+                a.get(k, 0) for k in ("typed", "at", "sf", "ef", "xf", "rf")
             ):
                 return False  # a re-entry scope creates no action of its own
         else:
@@ -407,6 +429,8 @@ def valid_default(prog):
                 return False  # failing serializers / hostile exceptions are C07's / C13's alphabet
             if a.get("api", 0) == 5 and a.get("fs", 0):
                 return False
+            if a.get("rf", 0) and a.get("api", 0) in (5, 9):
+                return False  # write_traceback takes no fields
     return True
 
 
@@ -464,6 +488,14 @@ class Interp(object):
             raise RuntimeError("extractor failed")
 
         register_exception_extractor(BadExtract, bad_extractor)
+        _FLAKY[0] = 0
+
+        def flaky_extractor(e):
+            if e.first:
+                return {"flaky": 1}
+            raise RuntimeError("extractor failed for this instance")
+
+        register_exception_extractor(FlakyExtract, flaky_extractor)
 
         def a_extractor(e):
             raise MutualB("from A's extractor")
@@ -509,23 +541,26 @@ class Interp(object):
         fs = dict(ALL_FS[a.get("fs", 0)])
         fs["serial"] = self._next_serial()
         cur = current_action()
+        rfs = dict(fs)  # what the reference expects
+        if a.get("rf", 0):
+            fs.update(RESERVED_MSG)
         if api == 0:
-            ref = {"k": "m", "type": mt, "fields": dict(fs)}
+            ref = {"k": "m", "type": mt, "fields": dict(rfs)}
             self._attach(ref)
             log_message(mt, **fs)
         elif api == 1:
-            ref = {"k": "m", "type": mt, "fields": dict(fs)}
+            ref = {"k": "m", "type": mt, "fields": dict(rfs)}
             self._attach(ref)
             if cur is not None:
                 cur.log(mt, **fs)
             else:
                 log_message(message_type=mt, **fs)
         elif api == 2:
-            ref = {"k": "m", "type": mt, "fields": dict(fs)}
+            ref = {"k": "m", "type": mt, "fields": dict(rfs)}
             self._attach(ref)
             Message.log(message_type=mt, **fs)
         elif api == 3:
-            ref = {"k": "m", "type": mt, "fields": dict(fs)}
+            ref = {"k": "m", "type": mt, "fields": dict(rfs)}
             self._attach(ref)
             Message.new(message_type=mt, **fs).write()
         elif api in (4, 6):
@@ -533,7 +568,7 @@ class Interp(object):
             ref = {
                 "k": "m",
                 "type": "app:typed",
-                "fields": dict(fs, tv={"ser": tv}),
+                "fields": dict(rfs, tv={"ser": tv}),
             }
             self._attach(ref)
             if api == 4:
@@ -542,7 +577,7 @@ class Interp(object):
                 TYPED_MSG(tv=tv, **fs).write()
         elif api == 8:
             # log on the nearest *enclosing* action object that is open but not current
-            ref = {"k": "m", "type": mt, "fields": dict(fs)}
+            ref = {"k": "m", "type": mt, "fields": dict(rfs)}
             outer = None
             if len(self.astack) >= 2 and self.astack[-2] is not None and len(self.stack) >= 2:
                 outer = self.astack[-2]
@@ -560,7 +595,7 @@ class Interp(object):
             except BoolBoom:
                 write_traceback()
         elif api == 7:
-            ref = {"k": "m", "type": "app:badtyped", "fields": dict(fs), "dropped": True}
+            ref = {"k": "m", "type": "app:badtyped", "fields": dict(rfs), "dropped": True}
             self._attach(ref)
             TYPED_MSG_BAD.log(tv=1, **fs)
         elif api == 5:
@@ -626,6 +661,9 @@ class Interp(object):
             atype = ATYPES[a.get("at", 0)]
             start_ref, start_args = dict(sf), dict(sf)
             end_ref, end_args = dict(ef), dict(ef)
+        if a.get("rf", 0):
+            start_args.update(RESERVED_ACT)
+            end_args.update(RESERVED_ACT)
         if self.tag:
             start_ref["vk_style"] = style
             start_args["vk_style"] = style
@@ -675,8 +713,10 @@ class Interp(object):
             ref["start"] = {"x": arg}
             end_ref = {"result": result}
 
-            @log_call(action_type=at_name)
-            def fn(x):
+            def fn(x, timestamp="user-ts", task_level=(7, 7), task_uuid="user-uuid", action_status="user-status"):
+                return fn1(x)
+
+            def fn1(x):
                 self.stack.append(ref)
                 self.astack.append(current_action())
                 try:
@@ -686,6 +726,10 @@ class Interp(object):
                     self.astack.pop()
                 return result
 
+            if a.get("rf", 0):
+                fn = log_call(action_type=at_name)(fn)
+            else:
+                fn = log_call(action_type=at_name)(fn1)
             self._attach(ref)
             try:
                 got = fn(arg)
